@@ -57,6 +57,13 @@ def cases(chk):
         yield "lib-decodes-ref", {"tree": to_json(("m", [("id", "z%d" % nb)], bytes([nb % 251]) * nb, [])), "seed": nb, "deflate": 1}
         yield "lib-decodes-ref", {"tree": to_json(("m", [("id", "k%d" % nb)], None, [("c", [("i", str(i))], bytes([i % 251 + 1]) * (nb // 40 + 1), []) for i in range(40)])),
                                   "seed": nb + 1, "deflate": 1}
+    # strings around the JID separator: empty user, empty server, several separators — as attribute value, attribute key, tag and string content
+    for i, w in enumerate(["a@", "4915112345678@", "@", "@@", "a@@", "@a", "x@y@", "@s.whatsapp.net", "1@2@", "0@", "-@.", "@g.us"]):
+        for t in (("iq", [("to", w)], None, []), ("iq", [(w, "v")], None, []), (w if w != "" else "x", [], None, []), ("m", [("id", "1")], w.encode(), [])):
+            if trees.wf(t):
+                yield "ref-decodes-lib", {"tree": to_json(t)}
+                for s_ in range(6):
+                    yield "lib-decodes-ref", {"tree": to_json(t), "seed": 7000 + 10 * i + s_, "deflate": 0}
     # the coder layer keeps ONE encoder for the life of the stack: an encode that fails half-way (a value the format cannot carry) must leave
     # nothing behind that ends up in the next frame
     for bad in ("int-attribute", "wide-character", "too-many-children", "none-data-kid", "int-attribute-late"):
